@@ -1049,15 +1049,15 @@ def _dom(mesh, it, inm=True):
 # (_check_facet_geometry refuses it) and none on a domain that is not in the Measure.
 MEASURES = {
     # exterior facets of A that are interior facets of B: the primary integral type is not interior_facet
-    "ds-dS": ([_dom("affine", "exterior_facet"), _dom("affine", "interior_facet")], ["f1", "g", "n", "f1_b", "g_b", "n_b"], ["f1", "g", "n", "v", "c", "f1_b", "g_b", "n_b", "h_b", "x_b"]),
+    "ds-dS": ([_dom("affine", "exterior_facet"), _dom("affine", "interior_facet")], ["f1", "g", "n", "f1_b", "g_b", "n_b"], ["f1", "g", "n", "v", "f1_b", "g_b", "n_b", "h_b"]),
     # cells of a mesh of intervals A that are interior facets of the triangle mesh B
-    "dx-dS": ([_dom("codim1", "cell"), _dom("affine", "interior_facet")], ["f1", "g", "x", "f1_b", "g_b", "n_b"], ["f1", "g", "x", "h", "v", "f1_b", "g_b", "n_b", "a_b", "w_b"]),
+    "dx-dS": ([_dom("codim1", "cell"), _dom("affine", "interior_facet")], ["f1", "g", "x", "f1_b", "g_b", "n_b"], ["f1", "g", "x", "h", "f1_b", "g_b", "n_b", "a_b"]),
     # interior facets of A on the boundary of B
-    "dS-ds": ([_dom("affine", "interior_facet"), _dom("affine", "exterior_facet")], ["f1", "g", "n", "f1_b", "g_b", "n_b"], ["f1", "g", "n", "h", "f1_b", "g_b", "n_b", "a_b", "v_b", "c_b"]),
+    "dS-ds": ([_dom("affine", "interior_facet"), _dom("affine", "exterior_facet")], ["f1", "g", "n", "f1_b", "g_b", "n_b"], ["f1", "g", "n", "h", "f1_b", "g_b", "n_b", "c_b"]),
     # interior facets of both, B with P2 coordinates (the rule of the facet normal looks at the normal's own mesh)
-    "dS-dS": ([_dom("affine", "interior_facet"), _dom("p2mesh", "interior_facet")], ["f1", "g", "n", "g_b", "n_b"], ["f1", "g", "n", "x", "f1_b", "g_b", "n_b", "x_b", "u1_b"]),
+    "dS-dS": ([_dom("affine", "interior_facet"), _dom("p2mesh", "interior_facet")], ["f1", "g", "n", "g_b", "n_b"], ["f1", "g", "n", "x", "f1_b", "g_b", "n_b", "u1_b"]),
     # B only in the integrand: FormData gives it the primary integral type
-    "dS-extra": ([_dom("affine", "interior_facet"), _dom("affine", "interior_facet", False)], ["f1", "g", "n", "f1_b", "g_b", "x_b"], ["f1", "g", "n", "a", "f1_b", "g_b", "x_b", "h_b", "w_b"]),
+    "dS-extra": ([_dom("affine", "interior_facet"), _dom("affine", "interior_facet", False)], ["f1", "g", "n", "f1_b", "g_b", "x_b"], ["f1", "g", "n", "a", "f1_b", "g_b", "x_b", "h_b"]),
 }
 
 
@@ -1076,12 +1076,13 @@ def measure_slices(q):
             if any(d["it"] != "interior_facet" for d in doms[:2]) and mesh == "affine":  # (the quick tier: under ds /\\ dS and dS /\\ ds only)
                 out.append(Slice(name + ":R-ops", T, [{"R", "grad"}, {"neg", "add", *bin_}], **kw))
         else:
-            out.append(Slice(name + ":ops-R", T, [{"use", "R", "grad", "add", *bin_}, {"R", "neg", "idx", "jump", "avg"}, {"R"}], **kw))
+            out.append(Slice(name + ":ops-R", T, [{"use", "R", "grad", "add", *bin_}, {"R", "neg", "idx", "jump", "avg"}], **kw))
             out.append(Slice(name + ":R-ops", T, [{"R", "grad", "rv"}, {"R", "neg", "add", "div", "jumpn", *bin_}], **kw))
-            out.append(Slice(name + ":cond", T[:2] + [t for t in T if t.endswith("_b")][:2], [{"R", "use"}, {"cond"}, {"R"}], **kw))
+            if any(d["it"] != "interior_facet" for d in doms[:2]) and mesh == "affine":
+                out.append(Slice(name + ":cond", ["g", "f1_b", "g_b"], [{"R"}, {"cond"}], **kw))
     if not q:
         doms, _, T = MEASURES["ds-dS"]
-        out.append(Slice("ds-dS:deep", T, [DEEP | {"use"}] + [DEEP] * 5, maxnodes=6, doms=doms, simulate=500, depth=8, form_every=2, atoms=[*T, *pm("g_b", "n_b", "h_b", "f1_b", "g"), "grad(f1_b)+", "grad(g)"]))
+        out.append(Slice("ds-dS:deep", T, [DEEP | {"use"}] + [DEEP] * 5, maxnodes=6, doms=doms, simulate=300, depth=8, form_every=2, atoms=[*T, *pm("g_b", "n_b", "h_b", "f1_b", "g"), "grad(f1_b)+", "grad(g)"]))
     return out
 
 
